@@ -16,10 +16,12 @@
 #include <Bpp/Numeric/Prob/ExponentialDiscreteDistribution.h>
 #include <Bpp/Numeric/Prob/TruncatedExponentialDiscreteDistribution.h>
 #include <Bpp/Numeric/Prob/BetaDiscreteDistribution.h>
+#include <Bpp/Numeric/Prob/UniformDiscreteDistribution.h>
 #include <Bpp/Numeric/Hmm/FullHmmTransitionMatrix.h>
 #include <Bpp/Numeric/AbstractParametrizable.h>
 #include <algorithm>
 #include <cmath>
+#include <limits>
 #include <memory>
 #include <random>
 #include <csignal>
@@ -77,25 +79,42 @@ static std::unique_ptr<FullHmmTransitionMatrix> makeHmm(size_t n, const std::vec
 
 // ---------------------------------------------------------------- statistics (exploration)
 // Kolmogorov-Smirnov distance between the sample and the library's own cdf
-template<class Draw, class Cdf> static std::string ks(size_t n, Draw draw, Cdf cdf) {
+// With `cens` the sample is compared with the cdf *conditionally on x < cens*: D' = sup |F_n'(x) - F(x)/F(cens)| over
+// the n' sample points below cens, plus the deviation |n'/n - F(cens)| of the mass below cens, reported separately.
+// Used for the beta law, whose mass piles up within one ulp of 1 when beta is small (Beta(a, 0.1): about 3 % above
+// 1 - 1.1e-16): there doubles cannot resolve the cdf, qBeta returns 1 - 2.22e-16 or 1.0 (C08's kernel, not a
+// sampler defect), and BetaDiscreteDistribution::randC rejects the value 1.0 (open upper bound).  Given n', the
+// points below cens are an i.i.d. sample of the conditional law, so the DKW bound applies with n'.
+template<class Draw, class Cdf> static std::string ks(size_t n, Draw draw, Cdf cdf, double cens = std::numeric_limits<double>::infinity()) {
   std::vector<double> x(n);
   for (size_t i = 0; i < n; ++i) x[i] = draw();
   std::sort(x.begin(), x.end());
+  for (size_t i = 0; i < n; ++i) if (!(x[i] == x[i])) return "nan " + std::to_string(n);
+  size_t m = n;                                  // number of points below cens
+  double Fc = 1.;
+  const bool censored = cens < std::numeric_limits<double>::infinity();
+  if (censored) {
+    m = static_cast<size_t>(std::lower_bound(x.begin(), x.end(), cens) - x.begin());
+    Fc = cdf(cens);
+    if (!(Fc == Fc) || !(Fc > 0.)) return "nan " + std::to_string(n);
+  }
   double D = 0;
-  bool bad = false;
-  for (size_t i = 0; i < n; ++i) {
-    if (!(x[i] == x[i])) { bad = true; break; }
-    double F = cdf(x[i]);
-    if (!(F == F)) { bad = true; break; }
-    double lo = F - static_cast<double>(i) / static_cast<double>(n);
-    double hi = static_cast<double>(i + 1) / static_cast<double>(n) - F;
+  for (size_t i = 0; i < m; ++i) {
+    double F = cdf(x[i]) / Fc;
+    if (!(F == F)) return "nan " + std::to_string(n);
+    double lo = F - static_cast<double>(i) / static_cast<double>(m);
+    double hi = static_cast<double>(i + 1) / static_cast<double>(m) - F;
     D = std::max(D, std::max(lo, hi));
   }
-  if (bad) return "nan " + std::to_string(n);
   // sample mean travels too (only informative)
-  double m = 0; for (double v : x) m += v; m /= static_cast<double>(n);
-  return doubleToHex(D) + " " + std::to_string(n) + " " + doubleToHex(m);
+  double mean = 0; for (double v : x) mean += v; mean /= static_cast<double>(n);
+  std::string r = doubleToHex(D) + " " + std::to_string(m) + " " + doubleToHex(mean);
+  if (censored) r += " " + doubleToHex(std::fabs(static_cast<double>(m) / static_cast<double>(n) - Fc));
+  return r;
 }
+
+// upper end of the region in which the beta cdf is compared (see `ks`)
+static const double BETA_CENS = 1. - 1e-9;
 
 static std::string opKs(const Toks& t) {
   const std::string& fam = t[1];
@@ -105,15 +124,18 @@ static std::string opKs(const Toks& t) {
   if (fam == "gauss") return ks(n, [&] { return RandomTools::randGaussian(p[0], p[1]); }, [&](double x) { return RandomTools::pNorm(x, p[0], std::sqrt(p[1])); });
   if (fam == "gamma1") return ks(n, [&] { return RandomTools::randGamma(p[0]); }, [&](double x) { return RandomTools::pGamma(x, p[0], 1.); });
   if (fam == "gamma2") return ks(n, [&] { return RandomTools::randGamma(p[0], p[1]); }, [&](double x) { return RandomTools::pGamma(x, p[0], p[1]); });
-  if (fam == "beta") return ks(n, [&] { return RandomTools::randBeta(p[0], p[1]); }, [&](double x) { return RandomTools::pBeta(x, p[0], p[1]); });
+  if (fam == "beta") return ks(n, [&] { return RandomTools::randBeta(p[0], p[1]); }, [&](double x) { return RandomTools::pBeta(x, p[0], p[1]); }, BETA_CENS);
   // the library's own cdf of "exponential with this mean": ExponentialDiscreteDistribution(lambda = 1/mean).pProb
   if (fam == "expo") { ExponentialDiscreteDistribution d(2, 1. / p[0]); return ks(n, [&] { return RandomTools::randExponential(p[0]); }, [&](double x) { return d.pProb(x); }); }
   // distribution-level continuous draws against the same object's pProb
   if (fam == "dGamma") { GammaDiscreteDistribution d(4, p[0], p[1]); return ks(n, [&] { return d.randC(); }, [&](double x) { return d.pProb(x); }); }
+  // offset + Gamma(alpha, beta): p = alpha, beta, offset
+  if (fam == "dGammaOff") { GammaDiscreteDistribution d(4, p[0], p[1], 0.05, 0.05, true, p[2]); return ks(n, [&] { return d.randC(); }, [&](double x) { return d.pProb(x); }); }
+  if (fam == "dUnif") { UniformDiscreteDistribution d(4, p[0], p[1]); return ks(n, [&] { return d.randC(); }, [&](double x) { return d.pProb(x); }); }
   if (fam == "dGauss") { GaussianDiscreteDistribution d(4, p[0], p[1]); return ks(n, [&] { return d.randC(); }, [&](double x) { return d.pProb(x); }); }
   if (fam == "dExpo") { ExponentialDiscreteDistribution d(4, p[0]); return ks(n, [&] { return d.randC(); }, [&](double x) { return d.pProb(x); }); }
   if (fam == "dTExpo") { TruncatedExponentialDiscreteDistribution d(4, p[0], p[1]); return ks(n, [&] { return d.randC(); }, [&](double x) { return d.pProb(x); }); }
-  if (fam == "dBeta") { BetaDiscreteDistribution d(4, p[0], p[1]); return ks(n, [&] { return d.randC(); }, [&](double x) { return d.pProb(x); }); }
+  if (fam == "dBeta") { BetaDiscreteDistribution d(4, p[0], p[1]); return ks(n, [&] { return d.randC(); }, [&](double x) { return d.pProb(x); }, BETA_CENS); }
   return "bad-op";
 }
 
@@ -330,8 +352,35 @@ static std::string op(const Toks& t) {
     unsigned int nb = static_cast<unsigned int>(toU(t[1])); size_t nr = toU(t[2]), nc = toU(t[3]);
     std::vector<std::vector<size_t>> tb(nr, std::vector<size_t>(nc));
     for (size_t i = 0; i < nr; ++i) for (size_t j = 0; j < nc; ++j) tb[i][j] = toU(t[4 + i * nc + j]);
+    const std::mt19937 g0 = RandomTools::DEFAULT_GENERATOR;
     ContingencyTableTest test(tb, nb, false);
-    return doubleToHex(test.getStatistic()) + " " + doubleToHex(test.getPValue()) + " " + doubleToHex(test.getDegreesOfFreedom());
+    const std::mt19937 g1 = RandomTools::DEFAULT_GENERATOR;
+    std::vector<size_t> m1 = test.getMarginRows(), m2 = test.getMarginColumns();
+    std::string s = doubleToHex(test.getStatistic()) + " " + doubleToHex(test.getPValue()) + " " + doubleToHex(test.getDegreesOfFreedom());
+    s += " ;" + showI(m1) + " ;" + showI(m2) + " ;";
+    // Replay: the statistics of the nb tables that rcont2() returns from the generator state the constructor
+    // started in (same expression as ContingencyTableTest.cpp:70-96), and whether the constructor left the
+    // generator in the state reached after exactly these nb tables.
+    RandomTools::DEFAULT_GENERATOR = g0;
+    if (nb > 0) {
+      size_t tot = 0; for (size_t x : m1) tot += x;
+      RowMatrix<long double> expc(nr, nc);
+      for (size_t i = 0; i < nr; ++i) for (size_t j = 0; j < nc; ++j)
+        expc(i, j) = static_cast<long double>(m1[i] * m2[j]) / static_cast<long double>(tot);
+      ContingencyTableGenerator ctgen(m1, m2);
+      for (unsigned int k = 0; k < nb; ++k) {
+        RowMatrix<size_t> rep = ctgen.rcont2();
+        double stat_rep = 0;
+        for (size_t i = 0; i < nr; ++i) for (size_t j = 0; j < nc; ++j) {
+          long double c = rep(i, j); long double e = expc(i, j);
+          stat_rep += static_cast<double>(std::pow(c - e, 2.L) / e);
+        }
+        s += " " + doubleToHex(stat_rep);
+      }
+    }
+    bool same = RandomTools::DEFAULT_GENERATOR == g1;
+    RandomTools::DEFAULT_GENERATOR = g1;
+    return s + " ; " + (same ? "1" : "0");
   }
   if (o == "ks") return opKs(t);
   if (o == "chi2") return opChi2(t);
